@@ -478,7 +478,10 @@ def run(ctx):
     g = ctx.gen("ukf")
     NP, NC = ctx.n(110, 3000), ctx.n(130, 4000)
     metas = [ukfp_case(g, ctx.tier) for _ in range(NP)] + [ukfc_case(g, ctx.tier) for _ in range(NC)]
-    corpus = vlib.VERIF / "corpus" / "C04" / "cases.txt"
+    if ctx.replay:
+        import json
+        metas = [U.unsnap(json.load(open(ctx.replay))["replay"]["meta"])]
+    snaps = [U.snap(m) for m in metas]
     hl = []
     for meta in metas:
         hl.append((ukfp_lines(meta) if meta["op"] == "ukfp" else ukfc_lines(meta))[0])
@@ -513,17 +516,24 @@ def run(ctx):
             else:
                 probs += compare_ukfc(meta, o, kfd, mud, stats)
         for kind, key2, what in probs:
-            (prop_bad if kind == "prop" else corr_bad).append((key2, what, hl[ci], h))
+            (prop_bad if kind == "prop" else corr_bad).append((key2, what, ci, h))
+
+    def rdata(ci, h, extra=None):
+        d = {"harness": "h_ut", "input_line": hl[ci], "meta": snaps[ci], "observed": h[:3000],
+             "how": "python3 check.py C04 --replay <this file> re-runs exactly this case against the current tree"}
+        d.update(extra or {})
+        return d
+
     seen = set()
-    for key2, what, line, h in prop_bad:
+    for key2, what, ci, h in prop_bad:
         if key2 in seen:
             continue
         seen.add(key2)
-        ctx.violation(key2, "UKF vs KF: " + what, {"harness": "h_ut", "input_line": line, "observed": h[:3000]})
+        ctx.violation(key2, "UKF vs KF: " + what, rdata(ci, h))
     if corr_bad and not prop_bad:
-        key2, what, line, h = corr_bad[0]
+        key2, what, ci, h = corr_bad[0]
         ctx.violation("correspondence:" + key2, "model and implementation disagree (%d cases), no property predicate failed: %s" % (len(corr_bad), what),
-                      {"harness": "h_ut", "correspondence": "BFL.ukfPredict*/ukfCorrect* vs UKFPrediction/UKFCorrection", "input_line": line, "observed": h[:3000]}, no_input=True)
+                      rdata(ci, h, {"correspondence": "BFL.ukfPredict*/ukfCorrect* vs UKFPrediction/UKFCorrection"}), no_input=True)
     nontrivial = set(hl[ci] for ci, meta in enumerate(metas) if meta["n"] + meta["nz"] > 1 or meta["k"] > 1)
     ctx.coverage.update({
         "evaluations": len(metas), "distinct_nontrivial": len(nontrivial),
